@@ -29,7 +29,7 @@ sh(f"git -C {wt} checkout -- .")
 print(json.dumps({"pid": pid, "change": i, "clean_demo_passes": clean_pass, "suite_passes_with_change": suite_ok,
                   "demo_fails_with_change": demo_fails, "demo_output": dout.strip()[-300:], "checks": res}, indent=1))
 if clean_pass and suite_ok and demo_fails:
-    dst = f"/verif/seeded/{pid}-{i}"
+    dst = f"/verif/seeded/{pid}-{os.environ.get('SEED_TAG', '')}{i}"
     os.makedirs(dst, exist_ok=True)
     shutil.copy(diff, f"{dst}/patch.diff")
     shutil.copytree(f"{demo}/demo{i}", f"{dst}/demo", dirs_exist_ok=True)
